@@ -100,7 +100,7 @@ index f38589a..0f1bb83 100644
             delta::delta(ByteLines::new(BufReader::new(&input[0..])), writer, &config)
         {
             match error.kind() {
-                ErrorKind::BrokenPipe => std::process::exit(0),
+                ErrorKind::BrokenPipe => return Ok(()),
                 _ => eprintln!("{error}"),
             }
         };
